@@ -14,7 +14,7 @@ import CopVerif.Base.Num
     (row `side` of `Edge.U` of the parent with that index in the previous tree) above, chosen
     exactly as `Edge.get_conditional_uni` chooses.  Then, in the real code,
     `family, θ = select_copula(column_stack(inputs))` and
-    `U = fix01 (H(l, r), H(r, l))` with `H = copula.partial_derivative`.
+    `U = fix01 (H(l, r), H(r, l))` with `H = copula.partial_derivative` (`fix01`: `≤ 0 ↦ ε`, `≥ 1 ↦ 1 − ε`).
   * `likPlan`: `VineCopula.get_likelihood` as the recursion over trees; the `d × d` matrix of
     conditional values is a FINITE MAP (`Mat`): a cell that was never written is *not a number* — a
     read of it is reported (`written = false`) and yields the symbolic value `junk`, which is what
@@ -201,12 +201,13 @@ def goodVine : List Tree → Bool
 /-! ## `fix01`: the 0/1 correction of `prepare_next_tree` -/
 
 section
-variable {α : Type} [Sub α] [NumFns α]
+variable {α : Type} [Sub α] [LE α] [DecidableLE α] [NumFns α]
 
-/-- `x[x == 0] = EPSILON` then `x[x == 1] = 1 - EPSILON`, one element. -/
+/-- `x[x <= 0] = EPSILON` then `x[x >= 1] = 1 - EPSILON`, one element (a clamp; a NaN fails both
+comparisons and stays). -/
 def fix01 (ε x : α) : α :=
-  let y := if NumFns.beq x (NumFns.ofNat 0) then ε else x
-  if NumFns.beq y (NumFns.ofNat 1) then NumFns.ofNat 1 - ε else y
+  let y := if x ≤ NumFns.ofNat 0 then ε else x
+  if NumFns.ofNat 1 ≤ y then NumFns.ofNat 1 - ε else y
 
 /-- `edge.U = [fix01 H(l, r), fix01 H(r, l)]`, one row of the table. -/
 def edgeU (ε : α) (H : α → α → α) (l r : α) : α × α := (fix01 ε (H l r), fix01 ε (H r l))
